@@ -27,7 +27,7 @@ HASH_DIRS = [
     ('aldor/aldor/lib/libfoam/al', False), ('aldor/aldor/lib/libfoamlib/al', False),
     ('aldor/aldor/lib/java/src', True), ('aldor/aldor/test', False),
     ('aldor/lib/aldor/src', True), ('aldor/lib/aldor/include', False),
-    ('aldor/lib', False),
+    ('aldor/lib', False), ('aldor/lib/axllib/src/al', False), ('aldor/lib/axllib/src', False), ('aldor/lib/axllib/include', False),
 ]
 HASH_EXT = {'.c', '.h', '.h0', '.z', '.msg', '.sed', '.as', '.java', '.am', '.deps', '.conf',
             '.mk', '.y', '.l', '.in'}
@@ -66,7 +66,7 @@ def tree_hash():
                 with open(p, 'rb') as fh:
                     h.update(fh.read())
                 h.update(b'\0')
-    h.update(b'build.py v8')
+    h.update(b'build.py v9')
     return h.hexdigest()[:16]
 
 
@@ -353,6 +353,29 @@ class Build:
                 cwd=self.foamlib, what='rtexns')
             run(['gcc', '-O0', '-w'] + ['-I' + i for i in self.inc] + ['-c', 'rtexns.c', '-o', 'rtexns.o'],
                 cwd=self.foamlib, what='cc rtexns')
+
+    def build_axllib(self):
+        """the older axllib library (used by the pinned corpus lib/axllib/test)"""
+        self.need('aldor', 'foam', 'foamlib')
+        AX = R + '/lib/axllib/src/al'
+        out = self.B + '/axllib'
+        if os.path.isdir(out):
+            shutil.rmtree(out)
+        allao, libao = self.build_units(AX, out, 'axllib', 'Axl', ['-Q8'], R + '/lib/axllib/include')
+        run(['ar', 'cr', out + '/libaxllib.al'] + libao)
+        objs = self.ao_to_c_objs(libao, out)
+        for f in sorted(os.listdir(R + '/lib/axllib/src')):
+            if f.endswith('.c'):
+                o = out + '/' + f[:-2] + '.o'
+                run(['gcc', '-O0', '-w'] + ['-I' + i for i in self.inc] + ['-c', R + '/lib/axllib/src/' + f, '-o', o], what='cc ' + f)
+                objs.append(o)
+        run(['ar', 'cr', out + '/libaxllib.a'] + objs)
+
+    def axllib_flags(self):
+        return ['-I' + R + '/lib/axllib/include', '-Y' + self.B + '/axllib', '-Y' + self.foam]
+
+    def link_axllib(self):
+        return [self.B + '/axllib/libaxllib.a', self.foam + '/libfoam.a', self.foamlib + '/libfoamlib.a', '-lm']
 
     ALDOR_SUBDIRS = ['lang', 'base', 'arith', 'datastruc', 'util', 'lisp', 'test']
 
